@@ -819,6 +819,21 @@ class Interp:
                 return self.class_attr(k, name, expr)
             if name == "__name__":
                 return Str.lit(c.name)
+            if name == "_fields" and "NamedTuple" in c.all_extern_bases():
+                order: List[str] = []
+                for k in reversed(c.mro()):
+                    for n_, _ in k.ann_order:
+                        if n_ not in order:
+                            order.append(n_)
+                return TupleV([Str.lit(x) for x in order])
+            if name == "__subclasses__":
+                # direct subclasses in definition order; defined when they all live in one module (import order between modules
+                # is not derived here)
+                subs = [k for m_ in self.p.modules.values() for k in m_.classes.values() if c in k.bases]
+                if len({k.module for k in subs}) > 1:
+                    raise self.unsupported(f"{c.name}.__subclasses__() over several modules", node, fr)
+                subs.sort(key=lambda k: k.node.lineno)
+                return Extern("$subclasses", ListV([ClassV(k) for k in subs]))
             raise self.unsupported(f"class attribute {c.name}.{name}", node, fr)
         if isinstance(v, EnumV):
             if name == "name":
